@@ -10,7 +10,7 @@
     OP     = {"type":"query"|"mutation","name":str,"fields":[E,...]}
     E      = {"k":"attr","cls","attr"} | {"k":"call","cls","attr","kw":[[param, wire value],...]}
            | {"k":"alias","e":E,"a":str} | {"k":"fields","e":E,"cs":[E]} | {"k":"on","e":E,"ty":str,"cs":[E]}
-    RESULT = {"doc": DOC | null, "error": str | null, "valid": bool, "trig": {...}}
+    RESULT = {"doc": DOC | null, "error": str | null, "valid": bool, "trig": {...}, "deepVars": bool}
   Each sequence starts from the state right after import (history = the earlier OPs of the sequence).
 -/
 import AriadneModel.Driver.Wire
@@ -128,12 +128,14 @@ def runSeq (s : Schema) (p : Package) (ops : List Op) : List Json :=
     | op :: rest =>
       let (r, st1) := runOp p op st
       let trig := Json.mkObj [
-        ("listArg", trigListArgList p op.fields), ("deepVars", trigDeepList 1 op.fields),
+        ("listArg", trigListArgList p op.fields),
         ("pyName", trigPyNameList p op.fields), ("sharedMut", trigSharedMut hist op),
         ("nameClash", trigClash r)]
+      -- region of the FIXED finding C14-F2 (an argument below level 2): no trigger any more, only measured
+      let deep : Json := trigDeepList 1 op.fields
       let out := match r with
-        | .ok d => Json.mkObj [("doc", encDoc d), ("error", .null), ("valid", validDoc s d), ("trig", trig)]
-        | .error e => Json.mkObj [("doc", .null), ("error", encErr e), ("valid", false), ("trig", trig)]
+        | .ok d => Json.mkObj [("doc", encDoc d), ("error", .null), ("valid", validDoc s d), ("trig", trig), ("deepVars", deep)]
+        | .error e => Json.mkObj [("doc", .null), ("error", encErr e), ("valid", false), ("trig", trig), ("deepVars", deep)]
       out :: go (hist ++ [op]) st1 rest
   go [] p.initStore ops
 
